@@ -100,18 +100,23 @@ func genDispatch(c *ctx) string {
 	b.WriteString("def dupScalarDropped : Bool := " + dupScalarForm(c) + "\n")
 	b.WriteString("def dirArgWrapperAccepted : Bool := " + dirArgTypeTest(c) + "\n")
 	b.WriteString("def descRaw : Bool := " + descForm(c) + "\n")
-	lnc, su := replaceArgVarsForms(c)
+	b.WriteString("def schemaDuringScan : Bool := " + schemaRollbackForm(c) + "\n")
+	lnc, su, sbe := replaceArgVarsForms(c)
+	b.WriteString("def objectUnchecked : Bool := " + objectArmForm(c) + "\n")
+	b.WriteString("def inputDefaultsRaw : Bool := " + inputValidateForm(c) + "\n")
 	b.WriteString("def listNotCoerced : Bool := " + lnc + "\n")
 	b.WriteString("def symbolUnchecked : Bool := " + su + "\n")
+	b.WriteString("def symbolBaseEnum : Bool := " + sbe + "\n")
 	b.WriteString("end Ggql.Gen\n")
 	return b.String()
 }
 
 // replaceArgVarsForms reads the `[]interface{}` and `Symbol` arms of (*Root).replaceArgVars: whole-arm match
 // (comments stripped, white space collapsed) against the two known forms of each.
-func replaceArgVarsForms(c *ctx) (listNotCoerced, symbolUnchecked string) {
+func replaceArgVarsForms(c *ctx) (listNotCoerced, symbolUnchecked, symbolBaseEnum string) {
 	listNotCoerced = unknown("replaceArgVars list arm", "resolve.go")
 	symbolUnchecked = unknown("replaceArgVars symbol arm", "resolve.go")
+	symbolBaseEnum = unknown("replaceArgVars symbol arm", "resolve.go")
 	fd := c.funcs["Root.replaceArgVars"]
 	if fd == nil {
 		return
@@ -147,11 +152,14 @@ func replaceArgVarsForms(c *ctx) (listNotCoerced, symbolUnchecked string) {
 					listNotCoerced = "false"
 				}
 			case "Symbol":
+				const member = `if _, has := et.values.dict[string(tv)]; !has { ea = append(ea, resWarnp(nil, "%s is not a valid enum value in %s", tv, et.N)) }`
 				switch body {
 				case enumChk:
-					symbolUnchecked = "true"
+					symbolUnchecked, symbolBaseEnum = "true", "true"
 				case strings.TrimSuffix(enumChk, " }") + ` } else ` + coerce:
-					symbolUnchecked = "false"
+					symbolUnchecked, symbolBaseEnum = "false", "true"
+				case `et, _ := at.(*Enum) ; if nn, _ := at.(*NonNull); nn != nil { et, _ = nn.Base.(*Enum) } ; if et != nil { ` + member + ` } else ` + coerce:
+					symbolUnchecked, symbolBaseEnum = "false", "false"
 				}
 			}
 		}
@@ -280,4 +288,83 @@ func descForm(c *ctx) string {
 		return unknown("escapeDesc body", c.pos(ed))
 	}
 	return unknown("writeDesc body", c.pos(fd))
+}
+
+// schemaRollbackForm reads (*Root).ParseReader: on a failed load the type and directive tables are put back;
+// is root.schema (which the scanner assigns when it meets a schema block) put back as well (D31)?
+func schemaRollbackForm(c *ctx) string {
+	fd := c.funcs["Root.ParseReader"]
+	if fd == nil {
+		return unknown("ParseReader", "root.go")
+	}
+	src := regexp.MustCompile(`(?m)//.*$`).ReplaceAllString(c.src(fd.Body), "")
+	src = regexp.MustCompile(`\s+`).ReplaceAllString(src, " ")
+	const tables = `if err != nil { root.types = origTypes root.dirs = origDirs }`
+	const all = `if err != nil { root.types = origTypes root.dirs = origDirs root.schema = origSchema }`
+	saved := strings.Contains(src, "origSchema := root.schema") &&
+		strings.Index(src, "origSchema := root.schema") < strings.Index(src, "parseSDL(root, r)")
+	switch {
+	case strings.Contains(src, tables) && !strings.Contains(src, "origSchema"):
+		return "true"
+	case strings.Contains(src, all) && saved && strings.Count(src, "origSchema") == 2:
+		return "false"
+	}
+	return unknown("ParseReader rollback", c.pos(fd))
+}
+
+// objectArmForm reads the `map[string]interface{}` arm of (*Root).replaceArgVars (whole-arm match).
+func objectArmForm(c *ctx) string {
+	fd := c.funcs["Root.replaceArgVars"]
+	if fd == nil {
+		return unknown("replaceArgVars", "resolve.go")
+	}
+	res := unknown("replaceArgVars object arm", c.pos(fd))
+	const inner = `for k, v := range tv { var vt Type if f := it.fields.get(k); f != nil { vt = f.Type } tv[k], ea2 = root.replaceArgVars(vars, v, vt) ea = append(ea, ea2...) } if val, err = it.CoerceIn(val); err != nil { ea = append(ea, resWarnp(nil, "%s", err)) }`
+	const coerce = `if val, err = ic.CoerceIn(val); err != nil { ea = append(ea, resWarnp(nil, "%s", err)) }`
+	ast.Inspect(fd.Body, func(n ast.Node) bool {
+		ts, ok := n.(*ast.TypeSwitchStmt)
+		if !ok {
+			return true
+		}
+		for _, cl := range ts.Body.List {
+			cc := cl.(*ast.CaseClause)
+			if len(cc.List) != 1 || c.src(cc.List[0]) != "map[string]interface{}" {
+				continue
+			}
+			var parts []string
+			for _, st := range cc.Body {
+				t := regexp.MustCompile(`(?m)//.*$`).ReplaceAllString(c.src(st), "")
+				parts = append(parts, regexp.MustCompile(`\s+`).ReplaceAllString(t, " "))
+			}
+			switch strings.Join(parts, " ; ") {
+			case `if it, _ := BaseType(at).(*Input); it != nil { ` + inner + ` }`:
+				res = "true"
+			case `it, _ := at.(*Input) ; if nn, _ := at.(*NonNull); nn != nil { it, _ = nn.Base.(*Input) } ; if it != nil { ` + inner + ` } else if ic, _ := at.(InCoercer); ic != nil { ` + coerce + ` }`:
+				res = "false"
+			}
+		}
+		return false
+	})
+	return res
+}
+
+// inputValidateForm reads (*Input).Validate: are the defaults of input fields coerced (and so validated) against
+// the field's type when the schema is validated, or left as the scanner produced them (D66)?
+func inputValidateForm(c *ctx) string {
+	fd := c.funcs["Input.Validate"]
+	if fd == nil {
+		return unknown("Input.Validate", "input.go")
+	}
+	src := regexp.MustCompile(`(?m)//.*$`).ReplaceAllString(c.src(fd.Body), "")
+	src = regexp.MustCompile(`\s+`).ReplaceAllString(src, " ")
+	const head = `{ if 0 < t.fields.Len() { for _, f := range t.fields.list { errs = append(errs, validateName(f.core, "field", f.N, f.line, f.col)...) if !IsInputType(f.Type) { errs = append(errs, fmt.Errorf("%w, %s does not return an input type at %d:%d", ErrValidation, f.Name(), f.line, f.col)) }`
+	const tail = ` } } else { errs = append(errs, fmt.Errorf("%w, input object %s must have at least one field at %d:%d", ErrValidation, t.Name(), t.line, t.col)) } return }`
+	const coerce = ` else if co, _ := f.Type.(InCoercer); co != nil && f.Default != nil { if v, err := co.CoerceIn(f.Default); err != nil { errs = append(errs, fmt.Errorf("%w at %d:%d", err, f.line, f.col)) } else { f.Default = v } }`
+	switch src {
+	case head + tail:
+		return "true"
+	case head + coerce + tail:
+		return "false"
+	}
+	return unknown("Input.Validate body", c.pos(fd))
 }
